@@ -4,8 +4,43 @@ import contracts.convert_value as cv
 
 
 def run(rep, kf, tier, seed):
+    from pyvc import core
+    import contracts.merge as cm
+    import contracts.typestrings as ts
+    from props.C20 import ref_tasks
     contracts = cv.build()
-    engine_b.discharge(rep, kf, contracts, "C13", tier, seed)
+    tasks = []
+    for c in contracts:
+        def t(c=c):
+            r = core.Report("C13", tier, seed)
+            engine_b.discharge(r, kf, [c], "C13", tier, seed)
+            return r
+        tasks.append(t)
+    # the default declared next to a $ref is re-validated against the referenced class (all 16 kinds)
+    tasks.extend(ref_tasks("C13", tier, seed, kf))
+    # allOf merges: the later default wins and is re-validated against the merged kind (diagonal + enum/any pairs in the
+    # quick tier, all 256 ordered pairs in the thorough tier)
+    pairs = [(a, b) for a in cm.ALL for b in cm.ALL
+             if tier == "thorough" or a == b or "Enum" in a + b or "Any" in a + b or {a, b} == {"IntProperty", "FloatProperty"}]
+    for k1, k2 in pairs:
+        def tm(k1=k1, k2=k2):
+            r = core.Report("C13", tier, seed)
+            engine_b.discharge(r, kf, [cm.merge_contract(k1, k2)], "C13", tier, seed)
+            return r
+        tasks.append(tm)
+    # the declaration `name: type = python_code`
+    for kind in cm.SIMPLE:
+        def tt(kind=kind):
+            r = core.Report("C13", tier, seed)
+            engine_b.discharge(r, kf, [ts.to_string_contract(kind)], "C13", tier, seed)
+            return r
+        tasks.append(tt)
+    for r in core.run_parallel(tasks):
+        r.obligations = [o for o in r.obligations if "C13" in o.props or o.id.endswith("no-exception-escapes")]
+        r.known_lines = [k for k in r.known_lines if k[0].startswith("C13")]
+        rep.merge(r)
+    from props.common import run_bounded
+    run_bounded(rep, kf, "C13", ["enum_default"], tier)
     rep.trusted.extend(["CPython semantics of the supported statement/expression subset as encoded in pyvc.symexec"]
                        + ["assumed library contract: " + t for t in libmodels.TRUSTED])
     rep.assumptions.append("machine arithmetic: Python ints are unbounded (exact); floats are reals plus inf/-inf/nan; "
